@@ -57,6 +57,8 @@ def drop_atom(a):
         return True
     if t[0] == "calli" and t[1] == "next":
         return True
+    if t[0] == "call" and t[1].split("::")[-1] in ("to_json_binary", "to_json_vec", "to_json_string") and o == "Ok":
+        return True     # serialising the answer succeeded: not part of the decision
     if t == ("param", "msg"):
         return True
     return False
